@@ -117,7 +117,7 @@ var arithOps = []int{'+', '-', '*', '/', '%'}
 
 func obsRes(p value.Primary, err error) string {
 	if err != nil {
-		if strings.Contains(err.Error(), "devided by zero") {
+		if strings.Contains(err.Error(), "devided by zero") || strings.Contains(err.Error(), "divided by zero") {
 			return "(Err EDivZero)"
 		}
 		return "(Err (EOther 0%N))"
